@@ -321,6 +321,7 @@ int main (void)
   {
     const char *op = l.w[0];
     int lvl; uint64_t pool, rbsize, maxlen;
+    fflush (stdout);   /* a later abort must not swallow the results of completed ops */
     (void) line_class;
     if (!strcmp (op, "head") && l.n >= 4 && lp_u64 (l.w[2], &pool) && lp_u64 (l.w[3], &rbsize) && pool >= 64 && pool <= (1u << 20)
         && rbsize <= pool)
